@@ -793,6 +793,17 @@ def conflict(a1, a2, ckind):
     rem = ('PopFrom', 'DelFrom', 'GetFrom')
     if n1 in rem and n2 in rem and x1['c'] == x2['c'] and ckind.get(x1['c']) == 'list' and (n1, n2) != ('GetFrom', 'GetFrom'):
         return True   # list indices shift
+    # two appends to the same LIST container, or an append while an element of that list is removed: the order in which the
+    # server handles them decides the indices, and the harness addresses list elements by index afterwards
+    def list_touch(n, x):
+        if n == 'Pickle' and x.get('kind') == 'store' and ckind.get(x['to']) == 'list':
+            return x['to']
+        if n in rem and ckind.get(x['c']) == 'list':
+            return x['c']
+        return None
+    t1, t2 = list_touch(n1, x1), list_touch(n2, x2)
+    if t1 is not None and t1 == t2 and (n1, n2) != ('GetFrom', 'GetFrom'):
+        return True
     if n1 in ('ProcessExit', 'RebuildInheriting') or n2 in ('ProcessExit', 'RebuildInheriting'):
         return True
     if n1 == 'Create' and n2 == 'Create' and x1['o'] == x2['o']:
